@@ -39,6 +39,13 @@ package option
 //@     exists(i, 0, len(o.SkipFields), refMatch(o.SkipFields[i].pattern, name, o.ExactCase))
 //@ spec skipInv(o Options) bool = forall(i, 0, len(o.SkipFields), pmInv(o.SkipFields[i]))
 //@
+//@ spec idInv(m *IdentMatcher) bool = m != nil && len(m.paths) >= 1
+//@ spec nmInv(m *NameMatcher) bool = m != nil && idInv(m.src) && idInv(m.dst)
+//@ spec convInv(o Options) bool = forall(i, 0, len(o.Converters), o.Converters[i] != nil && nmInv(o.Converters[i].m))
+//@ spec mapInv(ms []*NameMatcher) bool = forall(i, 0, len(ms), nmInv(ms[i]))
+//@ spec litInv(o Options) bool = forall(i, 0, len(o.Literals), o.Literals[i] != nil && idInv(o.Literals[i].dst))
+//@ spec optsInv(o Options) bool = skipInv(o) && convInv(o) && mapInv(o.NameMapper) && mapInv(o.TemplatedNameMapper) && litInv(o)
+//@
 //@ func (Options).ShouldSkip(o, fieldName) (r)
 //@   requires skipInv(o)
 //@   assigns all(PatternMatcher.re), all(PatternMatcher.exactCase)
@@ -73,7 +80,7 @@ package option
 //@   ensures {C06} r == reReplaceAll(reFromParen, m.paths[at], "")
 //@
 //@ func NewNameMatcher(src, dst, pos) (m)
-//@   ensures {C06,C09} fresh(m) && m.pos == pos && m.src != nil && m.dst != nil
+//@   ensures {C06,C09} fresh(m) && m.pos == pos && nmInv(m)
 //@   ensures {C06,C09} m.src.pattern == src && m.dst.pattern == cond(dst == "", src, dst)
 //@   ensures {C06,C14} len(m.src.paths) >= 1 && len(m.dst.paths) >= 1 && len(m.src.paths) == nsplit(src, ".")
 //@ func (*NameMatcher).Match(m, src, dst, exactCase) (r)
@@ -88,7 +95,7 @@ package option
 //@   ensures r == m.pos
 //@
 //@ func NewFieldConverter(converter, src, dst, pos) (c)
-//@   ensures {C06,C09} fresh(c) && c.converter == converter && c.m != nil && c.m.src != nil && c.m.dst != nil && c.m.pos == pos
+//@   ensures {C06,C09} fresh(c) && c.converter == converter && nmInv(c.m) && c.m.pos == pos
 //@   ensures {C06,C09} c.m.src.pattern == src && c.m.dst.pattern == cond(dst == "", src, dst)
 //@   ensures {C06,C14} len(c.m.src.paths) >= 1 && len(c.m.dst.paths) >= 1
 //@   ensures c.argType == nil && c.retType == nil && !c.retError
@@ -119,7 +126,7 @@ package option
 //@   ensures r == c.converter + "(" + arg + ")"
 //@
 //@ func NewLiteralSetter(dst, literal, pos) (m)
-//@   ensures {C06,C09} fresh(m) && m.literal == literal && m.pos == pos && m.dst != nil && m.dst.pattern == dst && len(m.dst.paths) >= 1
+//@   ensures {C06,C09} fresh(m) && m.literal == literal && m.pos == pos && idInv(m.dst) && m.dst.pattern == dst
 //@ func (*LiteralSetter).Match(m, dst, exactCase) (r)
 //@   requires m.dst != nil
 //@   ensures {C19} r == cond(exactCase, m.dst.pattern == dst, equalFold(m.dst.pattern, dst))
